@@ -259,8 +259,9 @@ def compare_decode(ctx, cases, pid):
                 if pi["E"] != want:
                     ctx.violation("property", "accepted non-empty message does not re-encode to the identical bytes (E=%s, want %s)" % (pi["E"], want), rep)
                     continue
-        # ---- correspondence impl vs model
-        if li != lm:
+        # ---- correspondence impl vs model (C05's model speaks about decoding and encoding; Display is C06's)
+        same = (pi["D"], pi["E"]) == (pm["D"], pm["E"]) if pid == "C05" else li == lm
+        if not same:
             if ki == "ERR" and klass(pm["D"]) == "ERR":
                 ctx.note("error variant differs (not an observable of the property): impl %s / model %s on %s" % (pi["D"], pm["D"], rt.hx(c)[:80]))
             else:
